@@ -2,6 +2,7 @@ package eng
 
 import (
 	"go/token"
+	"strings"
 	"go/types"
 	"sync"
 
@@ -17,6 +18,16 @@ func FuncValues(v ssa.Value) (fns []*ssa.Function, complete bool) {
 	seen := map[ssa.Value]bool{}
 	complete = true
 	add := func(f *ssa.Function) {
+		// a method value (x.m) is a closure over a synthetic wrapper: what is called is the method
+		if f != nil && strings.HasPrefix(f.Synthetic, "bound method wrapper") {
+			Instrs(f, false, func(in ssa.Instruction) {
+				if ci, ok := in.(ssa.CallInstruction); ok {
+					if g := ci.Common().StaticCallee(); g != nil {
+						f = g
+					}
+				}
+			})
+		}
 		for _, g := range fns {
 			if g == f {
 				return
@@ -116,6 +127,19 @@ func FuncValues(v ssa.Value) (fns []*ssa.Function, complete bool) {
 			default:
 				complete = false
 			}
+		case *ssa.Field:
+			// a field of a struct value (a strategy struct passed by value): every store to that field in the package
+			if st, ok := x.X.Type().Underlying().(*types.Struct); ok && x.Parent() != nil {
+				stores := fieldStoresOfStruct(st, x.Field, x.Parent())
+				if len(stores) == 0 {
+					complete = false
+				}
+				for _, s := range stores {
+					walk(s.Val, depth+1)
+				}
+			} else {
+				complete = false
+			}
 		case *ssa.FreeVar:
 			complete = false
 		default:
@@ -167,6 +191,14 @@ func fieldStoresInPkg(fa *ssa.FieldAddr) []*ssa.Store {
 	if !ok {
 		return nil
 	}
+	return fieldStoresOfStruct(st, fa.Field, fn)
+}
+
+func fieldStoresOfStruct(st *types.Struct, field int, fn *ssa.Function) []*ssa.Store {
+	if fn == nil || fn.Pkg == nil {
+		return nil
+	}
+	fa := struct{ Field int }{field}
 	key := fieldStoreKey{st, fa.Field, fn.Pkg}
 	if v, ok := fieldStoreCache.Load(key); ok {
 		return v.([]*ssa.Store)
